@@ -630,7 +630,7 @@ def run_scenario(ck, hbin, hchk, sc, ops, tag, seedtag):
                     continue
                 if res["prefix"] == mu:
                     if oob:
-                        issues.append(dict(kind="f9", routine="rope", clause="indices_in_range", cls="stale-index-after-erase: read past end()",
+                        issues.append(dict(kind="f9", routine="rope", clause="indices_in_range", cls="stale-index-after-erase: read past end()", distinct=(mu != mf),
                                            detail="after states.erase(i+1..j) the routine reads states[j] with j >= size()", script=hdr + [line], observed=[o], model=[m]))
                     elif mu != mf:
                         issues.append(dict(kind="f9", routine="rope", clause="indices_in_range", cls="stale-index-after-erase: wrong state",
@@ -745,16 +745,25 @@ def setup(ck):
 def handle(ck, issues, hchk, state):
     for it in issues:
         if it["kind"] == "f9":
-            ck.count("f9:" + it["cls"])
-            if "past end" in it["cls"] and state["f9_confirmed"] < 3:
-                if confirm_f9(ck, hchk, it):
-                    state["f9_confirmed"] += 1
-                    ck.count("f9:confirmed-by-bounds-checked-build")
-                else:
-                    ck.disagreements += 1
-                    ck.report({"engine": "pathops", "routine": "rope", "what": "model flags a read past end() that the bounds-checked build does not see"},
-                              script=it["script"], expected=it.get("model"), observed=it["observed"], found_input=False, engine="pathops",
-                              obligation="correspondence pathops: ropeShortcutPath stale index (model oob flag vs -D_GLIBCXX_ASSERTIONS build)")
+            ck.count("rope-model-flag:" + it["cls"])
+            if "past end" in it["cls"] and not it.get("distinct"):
+                # both model variants give the same path here, so only the bounds-checked build (-D_GLIBCXX_ASSERTIONS) of the
+                # same sources can tell whether this tree still reads states[j] past end(): probe the first three such inputs
+                if state["f9_probes"] < 3:
+                    verdict = "unfixed" if confirm_f9(ck, hchk, it) else "fixed"
+                    state["f9_probes"] += 1
+                    ck.count("f9:bounds-checked-build-says-" + verdict)
+                    if state["f9_tree"] is None:
+                        state["f9_tree"] = verdict
+                    elif state["f9_tree"] != verdict:
+                        ck.disagreements += 1
+                        state["bad"] += 1
+                        ck.report({"engine": "pathops", "routine": "rope", "what": "the bounds-checked build aborts on some stale-index inputs and not on others"},
+                                  script=it["script"], expected=it.get("model"), observed=it["observed"], found_input=False, engine="pathops",
+                                  obligation="correspondence pathops: ropeShortcutPath stale index (model oob flag vs -D_GLIBCXX_ASSERTIONS build)")
+                        continue
+                if state["f9_tree"] == "fixed":
+                    ck.count("rope:no-stale-read-on-this-tree")
                     continue
             ck.report({"engine": "pathops", "routine": "rope", "clause": "indices_in_range", "class": it["cls"]},
                       script=it["script"], expected=it.get("model"), observed=it["observed"], engine="pathops")
@@ -808,11 +817,11 @@ def run(ck):
     if ck.tier == "thorough" and ck.lean_ok:
         ck.leanchecker(["OmplModel.Props.C17"])
     hbin, hchk = build(ck)
-    state = {"bad": 0, "f9_confirmed": 0, "idx_confirmed": 0}
+    state = {"bad": 0, "f9_probes": 0, "f9_tree": None, "idx_confirmed": 0}
     for name, script in corpus():
         handle(ck, run_corpus_script(ck, hbin, name, script), hchk, state)
         ck.count("scripts:corpus")
-    nsc = 70 if ck.tier == "quick" else 600
+    nsc = 200 if ck.tier == "quick" else 1500
     jobs = []
     for i in range(nsc):
         r = ck.rng.fork("sc%d" % i)
@@ -843,23 +852,30 @@ def replay(ck, data):
     hbin, hchk = build(ck)
     ck.lean_build([DRIVER])
     script = data["script"]
-    if script and script[0] == "pathops" and len(script) > 2 and script[2].startswith("hybrid"):
+    if len(script) > 2 and script[2].startswith("hybrid"):
         impl, rc, err = ck.run_bin(hbin, script)
         print("\n".join(impl or []))
+        print("rc", rc, (err or "")[:2000])
         return 1
-    if any(l.split()[0] in ("collapse", "rope", "reduce", "pshort", "interp") and " cm " in l or " vsc " in l for l in script[3:]):
-        # a driver script (correspondence replay): show the model's answer and the implementation's
+    if any((" cm " in l or " vsc " in l) for l in script[3:]):
+        # a driver script (correspondence replay): the model's answer next to the recorded implementation line
         model, rc2, err2 = ck.run_bin(ck.driver(DRIVER), script)
-        print("model:", "\n".join(model or []))
-        print("implementation (recorded):", data.get("observed"))
+        print("model:")
+        print("\n".join(model or []))
+        print("implementation (recorded):")
+        print("\n".join(data.get("observed") or []))
         return 1
     issues = run_corpus_script(ck, hbin, "replay", script)
+    state = {"bad": 0, "f9_probes": 0, "f9_tree": None, "idx_confirmed": 0}
+    rc = 0
     for it in issues:
-        print("%s %s/%s: %s" % (it["kind"], it["routine"], it.get("clause"), it["detail"]))
+        print("%s %s/%s [%s]: %s" % (it["kind"], it["routine"], it.get("clause"), it.get("cls"), it["detail"][:1500]))
+        if it["kind"] == "f9" and "past end" in it["cls"]:
+            print("  bounds-checked build (-D_GLIBCXX_ASSERTIONS) aborts: %s" % confirm_f9(ck, hchk, it))
+        rc = 1
     if not issues:
         print("no failure on the current tree")
-        return 0
-    return 1
+    return rc
 
 
 LEVEL = "proof"
